@@ -28,7 +28,7 @@ InitMon ==
    cons |-> EmptyFun, delivered |-> {}, born |-> EmptyFun, gone |-> {}, refundedIds |-> {}, frozenC |-> {},
    snaps |-> EmptyFun, views |-> EmptyFun, genesisDelegs |-> EmptyFun, propsC |-> EmptyFun,
    docs |-> EmptyFun, answers |-> EmptyFun, proposer |-> "none", trace |-> 0, dead |-> FALSE,
-   pending |-> <<>>, broken |-> FALSE]
+   pending |-> <<>>, broken |-> FALSE, lastHash |-> "tnil"]
 
 TraceInit == l = 1 /\ pre = NoState /\ mon = InitMon /\ viol = <<>>
 
@@ -48,6 +48,7 @@ GenesisMon(e) ==
                                (CHOOSE x \in SeqSet(e.validators) : x.v = v).pow],
                   !.born = BornOf(s),
                   !.genesisDelegs = s.delegs,
+                  !.lastHash = e.apphash,
                   !.trace = mon.trace + 1]
 
 \* option documents announced by a proposal transaction (valid ones)
@@ -90,6 +91,7 @@ NextMon(e, post) ==
          [m0 EXCEPT !.snaps = IF "committed" \in DOMAIN e THEN Ext(@, e.committed.h, e.committed) ELSE @,
                     !.frozenC = {s.key : s \in SeqSet(post.frozen)},
                     !.propsC = post.props,
+                    !.lastHash = e.resp.hash,
                     !.proposer = "none"]
     [] OTHER -> m0
 
@@ -105,7 +107,7 @@ Checks(e, post) ==
   C02(e, pre, post, mon) \cup C03(e, pre, post) \cup C04(e, pre, post, mon) \cup C05(e, pre, post)
   \cup C10(e, pre, post, mon) \cup C11(e, pre, post, mon)
   \cup C12(e, pre, post, mon) \cup C13(e, pre, post, mon) \cup C14(e, pre, post, mon)
-  \cup C15(e, pre, post, mon) \cup C16(e, pre, post, mon) \cup C19Commit(e, pre)
+  \cup C15(e, pre, post, mon) \cup C16(e, pre, post, mon) \cup C19Commit(e, pre) \cup C07(e, pre, post, mon)
 
 Record(e, cs) == IF cs = {} THEN viol ELSE Append(viol, [line |-> l, trace |-> mon.trace, ev |-> e.ev, what |-> cs])
 
